@@ -6,6 +6,7 @@ subprocess with cbitstruct blocked) the native struct helpers.  Entry lists of e
 malformed byte stream for the decoder.  Oracle: the clauses of the property on the implementation's outputs."""
 import os
 import pickle
+import re
 import subprocess
 import sys
 import time
@@ -28,6 +29,7 @@ HEADER = ('From Coq Require Import ZArith NArith List Init.Byte.\nFrom RSV Requi
           'corr.C18Corr corr.Harness.\nImport ListNotations.\nOpen Scope N_scope.\nDefinition chk := chk18.\n')
 SHARD = 250
 SHARD_CHARS = 60000
+_PAT_RE = re.compile(r'\(pat \d+%N \d+%N (\d+)\)')
 KINDS = ['item', 'route', 'dmime', 'amimes', 'simple', 'bearer']
 
 
@@ -494,7 +496,7 @@ def label_entry(e):
     return k + ':in-range'
 
 
-def boundary_lists(rng):
+def boundary_lists(rng, thorough=True):
     """single- and two-entry lists putting each boundary value in each position that takes it."""
     t = tables()
     out = []
@@ -522,14 +524,15 @@ def boundary_lists(rng):
     out.append([('route', [b''])])
     out.append([('route', [b'', b''])])
     out.append([('amimes', [])])
-    for ul in (0, 1, 255, 256, 65535, 65536, 65537):
-        for pl in (0, 3):
+    for ul in (0, 1, 255, 256, 65535, 65536) + ((65537,) if thorough else ()):
+        for pl in (0, 3) if (thorough or ul < 1000) else (3,):
             out.append([('simple', FR.pat(ul % 97 + 1, 0, ul), FR.pat(5, 0, pl))])
     for tl in (0, 1, 300, 65536):
         out.append([('bearer', FR.pat(tl % 91 + 2, 0, tl))])
     for cl in (0, 1, 65535, 65536, 70000):
         out.append([('item', b'application/json', FR.pat(cl % 89 + 3, 0, cl))])
-        out.append([('item', b'cust/om', FR.pat(cl % 89 + 4, 0, cl)), ('route', [b'after'])])
+        if thorough or cl < 1000:
+            out.append([('item', b'cust/om', FR.pat(cl % 89 + 4, 0, cl)), ('route', [b'after'])])
     # typed names used as generic item names, with bodies that do / do not parse as the typed entry
     for n in sorted(t['typed']):
         for body in (b'', b'\x03abc', b'\x80\x00\x01up', b'\x81tok', b'\x85', b'\x05a/b', b'\xff', b'\x00', rb(rng, 7)):
@@ -776,14 +779,14 @@ def correspond(ctx, corr, model_ok):
         corr.oracle_failures.append({'what': msg, 'kind': 'tables'})
     corr.evaluations += 1
     lists = []
-    for es in boundary_lists(rng):
+    for es in boundary_lists(rng, ctx.thorough):
         lists.append((es, [gen_forms(rng) for _ in es]))
-        if es and rng.random() < 0.5:
+        if es and rng.random() < 0.5 and sum(body_len(e) for e in es) < 5000:
             lists.append((es, [gen_forms(rng) for _ in es]))
     for _ in range(ctx.scale(350, 8000)):
         env = FR.Env()
         n = rng.choice([0, 1, 1, 2, 2, 3, 4, 6])
-        es = [gen_entry(rng, env, big=(rng.random() < 0.03)) for _ in range(n)]
+        es = [gen_entry(rng, env, big=(rng.random() < ctx.scale(0.008, 0.03))) for _ in range(n)]
         lists.append((es, [gen_forms(rng) for _ in es]))
     # in-range mixtures (the round-trip clause needs many of these)
     for _ in range(ctx.scale(300, 6000)):
@@ -791,7 +794,7 @@ def correspond(ctx, corr, model_ok):
         es = []
         for _ in range(rng.choice([1, 2, 3, 4, 6])):
             for _try in range(20):
-                e = gen_entry(rng, env, big=(rng.random() < 0.02))
+                e = gen_entry(rng, env, big=(rng.random() < ctx.scale(0.005, 0.02)))
                 if entry_in_range(e):
                     es.append(e)
                     break
@@ -805,13 +808,15 @@ def correspond(ctx, corr, model_ok):
         return
     items = enc_items + dec_items + unit_items
     # shards bounded both in cases and in literal text (parsing the literals dominates the cost)
+    # (a (pat seed off n) term costs about as much to evaluate as 0.7 n characters cost to parse)
     groups, cur, size = [], [], 0
     for it in items:
-        if cur and (len(cur) >= SHARD or size + len(it[0]) > SHARD_CHARS):
+        cost = len(it[0]) + int(0.7 * sum(int(x) for x in _PAT_RE.findall(it[0])))
+        if cur and (len(cur) >= SHARD or size + cost > SHARD_CHARS):
             groups.append(cur)
             cur, size = [], 0
         cur.append(it)
-        size += len(it[0])
+        size += cost
     if cur:
         groups.append(cur)
     shards = ['Definition cases : list case18 := [\n' + ';\n'.join(x[0] for x in g) + '\n].' for g in groups]
